@@ -237,6 +237,21 @@ type OblResult struct {
 	ScriptID string
 }
 
+var undecidedMu sync.Mutex
+var undecidedBy = map[string]int{}
+
+func (d *Discharger) undecided(fn string) int {
+	undecidedMu.Lock()
+	defer undecidedMu.Unlock()
+	return undecidedBy[fn]
+}
+
+func (d *Discharger) noteUndecided(fn string) {
+	undecidedMu.Lock()
+	undecidedBy[fn]++
+	undecidedMu.Unlock()
+}
+
 func (d *Discharger) Discharge(reg *Registry, o *Obligation) *OblResult {
 	r := &OblResult{O: o}
 	if o.Folded {
@@ -295,6 +310,14 @@ func (d *Discharger) Discharge(reg *Registry, o *Obligation) *OblResult {
 			d.crossCheck(reg, o, script, id)
 		}
 		d.cache.Store(id, r)
+		return r
+	}
+	// A function that already has many undecided obligations (typically a changed body that no longer
+	// fits its contract: an un-annotated loop unrolled into hundreds of paths) is not raced again and
+	// again: the rest of its obligations stay undecided after the first stage and are reported as such.
+	if !o.ExpectSat && d.undecided(o.Func) >= 8 {
+		r.Status = "unknown"
+		r.Res = SolveResult{Status: "unknown", Solver: "z3-new", Output: "not raced: " + o.Func + " already has 8 undecided obligations"}
 		return r
 	}
 	// stage 2: portfolio in parallel. Variants: full script / script without
@@ -367,6 +390,9 @@ func (d *Discharger) Discharge(reg *Registry, o *Obligation) *OblResult {
 	}
 	if !done {
 		r.Status = "unknown"
+		if !o.ExpectSat {
+			d.noteUndecided(o.Func)
+		}
 		if o.ExpectSat {
 			// could not show satisfiable nor unsatisfiable: not counted as vacuous
 			r.Status = "proved"
